@@ -50,11 +50,11 @@ func ParseLog(text string) {
 	if len(allString) >= 1 && strings.HasPrefix(text, allString[0]) {
 		str := ""
 		id := revReg.FindStringSubmatch(text)
-		str = strings.Split(text, id[0])[1]
+		str = strings.SplitN(text, id[0], 2)[1]
 		auth := authorReg.FindStringSubmatch(str)
-		str = strings.Split(str, auth[1])[1]
+		str = strings.SplitN(str, auth[1], 2)[1]
 		dat := dateReg.FindStringSubmatch(str)
-		msg := strings.Split(str, dat[0])[1]
+		msg := strings.SplitN(str, dat[0], 2)[1]
 		if len(msg) > 1 {
 			msg = msg[1:]
 		}
